@@ -194,6 +194,7 @@ func matrix(specs []srvSpec) []cell {
 							}
 							var ops []op
 							pk := 0
+							companion := false
 							switch life {
 							case "switch":
 								// use the client, THEN force another version (or lift the forcing), use it, go back
@@ -245,6 +246,8 @@ func matrix(specs []srvSpec) []cell {
 								// the same origin under two authorities: connection caches are per authority, the settings
 								// are the client's - nothing of a connection to one name may show in a connection to the other
 								a, b := (si+ti+force)%2, 1-(si+ti+force)%2
+								// in a third of the cells the second authority is ANOTHER origin on the same host name
+								companion = (si+ti)%3 == 0 && sp.Name != companionSpec.Name && !sp.NeedCert
 								switch (si + 2*ti + force) % 3 {
 								case 0:
 									ops = cat(tlsOps(setter, ts.T, nil), po, rq(a, false), rq(b, false), rq(a, false), rq(b, false))
@@ -331,7 +334,7 @@ func matrix(specs []srvSpec) []cell {
 									reqs(1), []op{{K: "closeidle"}}, reqs(2))
 							}
 							cells = append(cells, cell{
-								Shape: fmt.Sprintf("f%d-h3%v-%s-%s-%s", force, h3, ts.Name, setter, life), Life: life, Proxy: pk,
+								Shape: fmt.Sprintf("f%d-h3%v-%s-%s-%s", force, h3, ts.Name, setter, life), Life: life, Proxy: pk, Companion: companion,
 								Spec:  sp, Ops: ops})
 						}
 					}
@@ -377,6 +380,20 @@ func matrix(specs []srvSpec) []cell {
 				cells = append(cells, cell{Shape: "h3redial-alt-" + setter, Spec: sp,
 					Ops: cat(tlsOps(setter, good, nil), protoOps(0, true, true), reqs(2), tlsOps(setter, bad, &good), []op{{K: "clone"}}, reqs(2))})
 			}
+		}
+	}
+	// what is learned about one origin (Alt-Svc) stays with its authority: another origin on the SAME host name,
+	// different port, without HTTP/3 - after the first one's entry is pending / confirmed
+	for _, sp := range specs {
+		if !sp.HTTPS || !sp.H3 || !sp.AltSvc || sp.NeedCert {
+			continue
+		}
+		for si, ts := range []tlsSetting{tlsSettings[1], tlsSettings[3], tlsSettings[2]} {
+			setter := []string{"mut", "set", "set-np"}[si]
+			cells = append(cells, cell{Shape: "samehost-jar-" + ts.Name, Spec: sp, Companion: true,
+				Ops: cat(tlsOps(setter, ts.T, nil), protoOps(0, true, true), rq(0, false), rq(0, false), rq(1, false), rq(1, false), rq(0, false))})
+			cells = append(cells, cell{Shape: "samehost-pending-" + ts.Name, Spec: sp, Companion: true,
+				Ops: cat(tlsOps(setter, ts.T, nil), protoOps(0, true, false), rq(0, false), rq(1, false), rq(0, false), []op{{K: "clone"}}, rq(1, false), rq(0, false))})
 		}
 	}
 	// plain http
@@ -489,7 +506,8 @@ func randomWalk(rng *hk.Rand, specs []srvSpec) cell {
 		}
 	}
 	ops = append(ops, op{K: "req"})
-	return cell{Shape: "walk", Spec: sp, Ops: ops, Proxy: pk}
+	return cell{Shape: "walk", Spec: sp, Ops: ops, Proxy: pk,
+		Companion: sp.HTTPS && !sp.NeedCert && sp.Name != companionSpec.Name && rng.Chance(30)}
 }
 
 func slowCell(c cell) bool {
@@ -595,6 +613,9 @@ func run(r *hk.Run) {
 				if strings.HasPrefix(c.Shape, "https-h2c-") && rng.Chance(12) {
 					cells = append(cells, c)
 				}
+				if strings.HasPrefix(c.Shape, "samehost-") && rng.Chance(40) {
+					cells = append(cells, c)
+				}
 				if strings.HasPrefix(c.Shape, "h3redial-") && rng.Chance(40) {
 					cells = append(cells, c)
 				}
@@ -646,6 +667,21 @@ func run(r *hk.Run) {
 					}
 					origins[cl.Spec.Name] = o
 				}
+				var comp *origin
+				if cl.Companion {
+					comp = origins[companionSpec.Name]
+					if comp == nil {
+						var err error
+						comp, err = startOrigin(p, companionSpec)
+						if err != nil {
+							mu.Lock()
+							startErr = err
+							mu.Unlock()
+							return
+						}
+						origins[companionSpec.Name] = comp
+					}
+				}
 				timeout := 30 * time.Second
 				if slowCell(cl) {
 					timeout = 1500 * time.Millisecond
@@ -653,7 +689,7 @@ func run(r *hk.Run) {
 				var res cellResult
 				t0 := time.Now()
 				for attempt := 0; attempt < 3; attempt++ {
-					res = runCell(p, o, cl, timeout)
+					res = runCell(p, o, comp, cl, timeout)
 					if !res.Unstable {
 						break
 					}
